@@ -75,6 +75,17 @@ func c08Valid(r *rand.Rand) *cfg.Config {
 			Args:   []cfg.Val{cfg.Str("%AppName%"), cfg.Str("%appName%")},
 			Fields: []cfg.KV{{K: "F1", V: cfg.Int(1)}, {K: "f1", V: cfg.Int(2)}, {K: "Ff", V: cfg.Int(3)}, {K: "fF", V: cfg.Int(4)}, {K: "FF", V: cfg.Int(5)}, {K: "ff", V: cfg.Int(6)}}})
 	}
+	// keys with numeric suffixes of different lengths and keys that sort between them (db10 < db1_replica < db2 bytewise): a
+	// comparator that mixes two orders is not transitive, and what a sort returns then depends on the order it was given
+	for k, n := range []string{"db2", "db10", "db1x", "db1-replica", "db9", "db100", "db1.a", "db1_0", "worker1x", "worker2", "worker10", "w9", "w10", "w1a"} {
+		c.Params = append(c.Params, cfg.KV{K: n, V: cfg.Int(int64(k))})
+		sv := cfg.Service{Name: n, Constructor: cfg.P(al() + ".New"), Args: []cfg.Val{cfg.Str("%" + n + "%")}, Tags: []cfg.Tag{{Name: n}, {Name: "t"}}}
+		c.Services = append(c.Services, sv)
+		if k < 8 {
+			c.Meta.Functions = append(c.Meta.Functions, cfg.KS{K: strings.NewReplacer("-", "", ".", "").Replace(n), V: al() + ".Fn"})
+		}
+	}
+	c.Meta.Imports = append(c.Meta.Imports, cfg.KS{K: "lib2", V: "fixt/pa"}, cfg.KS{K: "lib10", V: "fixt/pb"}, cfg.KS{K: "lib1x", V: "fixt/os"})
 	r.Shuffle(len(c.Services), func(i, j int) { c.Services[i], c.Services[j] = c.Services[j], c.Services[i] })
 	r.Shuffle(len(c.Params), func(i, j int) { c.Params[i], c.Params[j] = c.Params[j], c.Params[i] })
 	return c
